@@ -6,11 +6,13 @@ package main
 // stream terminates the proxy process; additionally a fresh connection must still be served afterwards.
 
 import (
+	"bufio"
 	"bytes"
 	"crypto/tls"
 	"fmt"
 	"io"
 	"net"
+	"net/http"
 	"os"
 	"strconv"
 	"strings"
@@ -193,6 +195,13 @@ func mitmScenarios(tier string, add func(Scenario)) {
 		}
 	}
 	// a ClientHello (no SNI) cut at every offset
+	// intercepted HTTPS requests whose upstream fails: two requests inside one TLS session, each must be
+	// answered with a well-formed 502 carrying a Warning that passed through the response modifier
+	for _, d := range []string{"refused", "plaintext_origin", "timeout", "eof"} {
+		for _, c := range []string{"authority_port", "authority_noport", "ip_port"} {
+			add(Scenario{Kind: "mitm", Script: c, Follow: "tls_two_requests", Dial: d, K: -1})
+		}
+	}
 	// MITM with HTTP/2 enabled for all hosts: the client negotiates ALPN h2 and sends the preface (complete,
 	// cut at every offset, or garbage) while the proxy's own upstream dial fails in three ways
 	for _, d := range h2DialOutcomes {
@@ -247,6 +256,9 @@ func mitmClass(s *Scenario) string {
 		v = "connect_ipv6_literal"
 	}
 	f := s.Follow
+	if f == "tls_two_requests" {
+		return "intercepted_request_upstream_failure"
+	}
 	switch f {
 	case "hello_nosni", "hello_tls12_nosni", "hello_truncated":
 		f = "tls_hello_without_sni"
@@ -281,8 +293,12 @@ func runMITMStream(s *Scenario, kind string, quiet time.Duration) *runOut {
 		}
 		return h1harness.Action{Write: [][]byte{genericResp}}
 	}
-	env, err := h1harness.NewEnv(h1harness.EnvOpts{Kind: kind, MITM: cfg, Dial: func(n int, addr string) error {
-		if !strings.HasPrefix(addr, originHost+":") {
+	rec := &recorder{}
+	env, err := h1harness.NewEnv(h1harness.EnvOpts{Kind: kind, MITM: cfg, ResMod: rec, Dial: func(n int, addr string) error {
+		if s.Follow == "tls_two_requests" && strings.HasSuffix(addr, ":443") && s.Dial != "plaintext_origin" {
+			return dialError(s.Dial, addr)
+		}
+		if !strings.HasPrefix(addr, originHost+":") && !(s.Follow == "tls_two_requests" && strings.HasSuffix(addr, ":443")) {
 			return h1harness.Refused(addr)
 		}
 		return nil
@@ -346,7 +362,7 @@ func runMITMStream(s *Scenario, kind string, quiet time.Duration) *runOut {
 			}
 		}
 		if connect == "200" && cl.Buffered() == 0 {
-			follow = mitmFollowUp(s, cl, report)
+			follow = mitmFollowUp(s, cl, rec, report)
 		} else if connect == "200" {
 			follow = "unexpected_bytes_after_200"
 		}
@@ -371,7 +387,7 @@ func runMITMStream(s *Scenario, kind string, quiet time.Duration) *runOut {
 }
 
 // mitmFollowUp performs what follows the 200 and returns a coarse outcome.
-func mitmFollowUp(s *Scenario, cl *h1harness.Client, report func(sym, detail string)) string {
+func mitmFollowUp(s *Scenario, cl *h1harness.Client, rec *recorder, report func(sym, detail string)) string {
 	drain := func() string {
 		cl.CloseWrite()
 		got, end := cl.Drain()
@@ -394,6 +410,48 @@ func mitmFollowUp(s *Scenario, cl *h1harness.Client, report func(sym, detail str
 		return first + "," + short(end)
 	}
 	switch s.Follow {
+	case "tls_two_requests":
+		cl.Conn.SetDeadline(time.Now().Add(cl.HangDeadline))
+		tc := tls.Client(cl.Conn, helloConfig("hello_sni"))
+		if err := tc.Handshake(); err != nil {
+			report("mitm_handshake_failed", err.Error())
+			return "handshake_refused"
+		}
+		br := bufio.NewReader(tc)
+		res := ""
+		for i, path := range []string{"/first", "/second"} {
+			tc.Write([]byte("GET " + path + " HTTP/1.1\r\nHost: " + originHost + "\r\n\r\n"))
+			r, err := http.ReadResponse(br, &http.Request{Method: "GET"})
+			if err != nil {
+				sym := "no_502_on_incomplete_head"
+				if i > 0 {
+					sym = "second_request_not_served_after_502"
+				}
+				report(sym, fmt.Sprintf("intercepted request %d (%s) whose upstream fails (%s): no well-formed response: %v", i+1, path, s.Dial, err))
+				return res + "err"
+			}
+			body, berr := io.ReadAll(r.Body)
+			res += fmt.Sprintf("%d,", r.StatusCode)
+			seen := false
+			for _, w := range r.Header["Warning"] {
+				if rec.sawWarningOn502(w) {
+					seen = true
+				}
+			}
+			switch {
+			case berr != nil:
+				report("502_malformed", fmt.Sprintf("response %d body: %v", i+1, berr))
+				return res
+			case r.StatusCode != 502:
+				report("no_502_on_incomplete_head", fmt.Sprintf("intercepted request %d whose upstream fails (%s) got status %d body %q", i+1, s.Dial, r.StatusCode, trunc(body, 40)))
+				return res
+			case len(r.Header["Warning"]) == 0:
+				report("502_without_warning", fmt.Sprintf("response %d: %v", i+1, r.Header))
+			case !seen:
+				report("502_warning_not_seen_by_modifier", fmt.Sprintf("response %d: Warning %q", i+1, r.Header["Warning"]))
+			}
+		}
+		return res
 	case "h2_preface", "h2_garbage", "h2_no_bytes", "h2_preface_truncated":
 		cl.Conn.SetDeadline(time.Now().Add(cl.HangDeadline))
 		tc := tls.Client(cl.Conn, &tls.Config{InsecureSkipVerify: true, NextProtos: []string{"h2"}})
